@@ -38,6 +38,7 @@ PROP = "C06"
 STABLE = '"""Settled module."""\n\n\ndef settled(a, b):\n    return a + b\n\n\nprint(settled(1, 2))\n'
 ONE_STEP = 'import os, sys\n\n\ndef fetch( path ):\n    if os.path.exists( path ):\n        return sys.intern( path )\n    else:\n        return None\n\n\nprint(fetch("x"))\n'
 
+TWIN = "import os, sys\nimport json\n\n\ndef value( ):\n    return json.dumps( 1 )\n\n\nprint(value())\n"
 A_CLIENT = "from b_lib import *\n\n\ndef run():\n    return helper(VALUE)\n\n\nprint(run())\n"
 B_LIB = "VALUE = 3\n\n\ndef helper( v ):\n    return v+1\n\n\ndef unused_thing():\n    return 0\n"
 C_OTHER = "import os, sys\n\n\ndef show( ):\n    print( os.sep, sys.maxsize )\n\n\nshow()\n"
@@ -76,6 +77,8 @@ def templates(mods) -> List[dict]:
         {"name": "one-folder", "files": {"m1_stable.py": STABLE, "m2_once.py": ONE_STEP, "m3_twice.py": two[0]}, "deps": {}, "passes": [1, 3]},
         {"name": "two-folders", "files": {"pkg_a/m1_once.py": ONE_STEP, "pkg_a/m2_stable.py": STABLE, "pkg_b/n1_twice.py": two[1],
                                            "pkg_b/n2_stable.py": STABLE.replace("settled", "steady")}, "deps": {}, "passes": [2, 5]},
+        # an __init__.py (imports are kept there) and a module with the SAME text: results must not travel between tasks of a worker
+        {"name": "init-twin", "files": {"pkg/__init__.py": TWIN, "pkg/twin.py": TWIN, "pkg/zz_other.py": ONE_STEP}, "deps": {}, "passes": [2]},
         {"name": "star-import", "files": {"a_client.py": A_CLIENT, "b_lib.py": B_LIB, "c_other.py": C_OTHER},
          "deps": {"a_client.py": ["b_lib.py"]}, "passes": [1]},
         {"name": "star-chain", "files": {"a2_client.py": A2_CLIENT, "b2_mid.py": B2_MID, "c2_base.py": C2_BASE},
@@ -568,6 +571,10 @@ STRINGY = [
     'def report(items):\n    out = []\n    for name, size, colour in items:\n        if name and size and colour:\n            out.append(f"{name}:{size}:{colour}")\n'
     '    return out\n\n\nprint(report([("a", 1, "red"), ("b", 2, "blue")]))\n',
     'STATES = frozenset(["open", "closed", "open", "pending"])\nLEVELS = set(["low", "high", "low"])\nprint(sorted(STATES), sorted(LEVELS))\n',
+    'x = 3\n\n\ndef show(v):\n    first = f"{v}"\n    second = f\'\'\'{v}\'\'\'\n    third = F"{v}"\n    fourth = f"{ v }"\n    unusedName = 1\n'
+    '    return first + second + third + fourth\n\n\nprint(show(x))\n',
+    'def tag(v):\n    a = f"<{v}>"\n    b = f\'<{v}>\'\n    c = f"""<{v}>"""\n    d = f\'\'\'<{v}>\'\'\'\n    otherName = 2\n    return [a, b, c, d]\n\n\nprint(tag(1))\n',
+    'LABEL = \'error\'\nOTHER = "error"\nTHIRD = \'\'\'error\'\'\'\n\n\ndef fn(v):\n    unusedThing = v\n    return [LABEL, OTHER, THIRD, \'error\', "error"]\n\n\nprint(fn(1))\n',
     'def classify(x):\n    if x == "a":\n        return 1\n    elif x == "b":\n        return 1\n    elif x == "c":\n        return 2\n    elif x == "d":\n        return 2\n'
     '    else:\n        return 3\n\n\nprint([classify(c) for c in "abcde"])\n',
 ]
